@@ -62,6 +62,7 @@ type VerifState struct {
 	Funcs    [9]uintptr // evl ppf vpf rpf eqf lss umf maf mfn
 	SliceLen int
 	SliceCap int
+	Spare    int         // non-nil values still referenced by the backing array beyond len (not part of Key)
 	Slots    []VerifSlot // user slots (stack only)
 	Kw       string      // condition only
 	Op       Operator    // condition only
@@ -130,6 +131,11 @@ func verifDumpStack(p *stack, seen map[uintptr]bool) *VerifState {
 	}
 	s.Addr = uintptr(unsafe.Pointer(p))
 	s.SliceLen, s.SliceCap = len(*p), cap(*p)
+	for _, v := range (*p)[len(*p):cap(*p)] {
+		if v != nil {
+			s.Spare++
+		}
+	}
 	if seen[s.Addr] {
 		return s
 	}
